@@ -19,6 +19,7 @@ Model and C must agree on tree-or-error; a difference in the error CODE only is 
 the harness is reported as a disagreement of kind 'crash'."""
 import base64
 import hashlib
+import os
 import re
 import sys
 
@@ -1024,6 +1025,9 @@ def correspond_inverse(seed=1, quick=True):
     emb_bodies = [b for b in bodies if " R " in (" " + b)]
     wo, _ = common.run_lines(D, ["W " + b for b in emb_bodies], shards=1)
     canon_all_of = {b: (o is not None and o.startswith("W 1")) for b, o in zip(emb_bodies, wo)}
+    corpus_name = {}
+    for f in convcases.corpus_xml():
+        corpus_name.setdefault(hashlib.sha256(open(f, "rb").read()).digest(), os.path.relpath(f, common.REPO) if f.startswith(common.REPO) else f)
     src = {"accepted_documents": len(sources), "evs_canon": 0, "evs_canon_modulo_embedded": 0, "excluded_by_clause": {},
            "excluded_by_kind": {}, "canon_by_kind": {}, "excluded_documents": [], "clause_fired_but_tree_canonical": 0,
            "with_added_cdata": 0, "with_embedded": 0}
@@ -1053,7 +1057,8 @@ def correspond_inverse(seed=1, quick=True):
             src["excluded_by_kind"].setdefault(kk, {})
             src["excluded_by_kind"][kk][cl] = src["excluded_by_kind"][kk].get(cl, 0) + 1
             if len(src["excluded_documents"]) < 60 and (kk in ("corpus",) or src["excluded_by_kind"][kk][cl] <= 2):
-                src["excluded_documents"].append({"kind": k, "clause": k_none, "clause_embedded_accepted": k_all, "doc": d[:160].decode("latin-1")})
+                src["excluded_documents"].append({"kind": k, "clause": k_none, "clause_embedded_accepted": k_all,
+                                                  "file": corpus_name.get(hashlib.sha256(d).digest(), ""), "doc": d[:120].decode("latin-1")})
             if canon_of.get(b, False):
                 src["clause_fired_but_tree_canonical"] += 1
     dist["source_documents"] = src
